@@ -315,6 +315,12 @@ func (c *Client) Rewrite(sb, sn, db, dn string) *Resp {
 	return c.Do("POST", ObjPath(sb, sn)+"/rewriteTo/b/"+esc(db)+"/o/"+esc(dn), [][2]string{{"Content-Type", "application/json"}}, []byte("{}"))
 }
 
+// RewriteBody is Rewrite with a caller-supplied request body: the optional destination object resource of the
+// rewrite API (clients that read-modify-write send a full resource here, output-only fields included).
+func (c *Client) RewriteBody(sb, sn, db, dn string, body []byte) *Resp {
+	return c.Do("POST", ObjPath(sb, sn)+"/rewriteTo/b/"+esc(db)+"/o/"+esc(dn), [][2]string{{"Content-Type", "application/json"}}, body)
+}
+
 func (c *Client) GetMeta(b, n string) *Resp { return c.Do("GET", ObjPath(b, n), nil, nil) }
 
 func (c *Client) GetMedia(form int, b, n string) *Resp {
